@@ -84,6 +84,9 @@ type hsCase struct {
 	SID         uint32 `json:"sid"`
 	ServerName  string `json:"server_name"`
 	Offset      int    `json:"clock_offset_s"`
+	// UseAbsClock: the client's clock reads exactly AbsClock (Unix seconds) instead of now+Offset
+	UseAbsClock bool  `json:"use_abs_clock,omitempty"`
+	AbsClock    int64 `json:"abs_clock,omitempty"`
 }
 
 func methodByte(m string) byte {
@@ -112,6 +115,10 @@ func (r *e2eRig) clientCfgFor(cs hsCase, uid []byte) (client.RemoteConnConfig, c
 	}
 	off := time.Duration(cs.Offset) * time.Second
 	world := common.WorldState{Rand: vWorld().Rand, Now: func() time.Time { return time.Now().Add(off) }}
+	if cs.UseAbsClock {
+		abs := cs.AbsClock
+		world.Now = func() time.Time { return time.Unix(abs, 0) }
+	}
 	_, remote, auth, err := raw.ProcessRawConfig(world)
 	if err != nil {
 		panic(fmt.Sprintf("ProcessRawConfig: %v", err))
